@@ -11,6 +11,10 @@ import vf
 
 KIND_CODE = {"t": 12, "u": 7, "d": 15}      # uv_handle_type: UV_TCP, UV_NAMED_PIPE, UV_UDP
 K_STALL = "accept_failure_stalls_server"
+# Which uv_pipe_connect the model is run as.  False: the current code (a second connect while one is
+# pending overwrites connect_req - known finding pipe_connect_overwrites_pending_request).  True: the code
+# with notes/C07_fix_pipe_connect_ealready.diff (UV_EALREADY).  Flip the default when the patch is committed.
+PIPE_CONNECT_EALREADY = os.environ.get("VERIF_C07_PIPE_EALREADY", "0") == "1"
 K_LOST = "pipe_connect_overwrites_pending_request"
 
 
@@ -262,7 +266,8 @@ def con_model_input(case, out):
     if len(sec) < 5:
         return None
     mb = " | ".join(" ".join(con_op(o) for o in b.split()) for b in behs.split("|"))
-    return "%d ; %s ; %s ; %s ; %s ; %s ; %s" % (1 if kind == "t" else 0, " ".join(con_op(o) for o in ops.split()),
+    return "%d %d ; %s ; %s ; %s ; %s ; %s ; %s" % (1 if kind == "t" else 0, 1 if PIPE_CONNECT_EALREADY else 0,
+                                                   " ".join(con_op(o) for o in ops.split()),
                                                 mb, sec[1], sec[2], sec[3], sec[4])
 
 
@@ -441,7 +446,7 @@ CON_EXPECT = {"Tl": 0, "Tc": -111, "Pl": 0, "Pm": -2, "Po": -2, "Pe": -22, "Pn":
 def connect_monitor(case, out):
     kind, ops, behs, script = split_case(case)
     toks = out.split(";")[0].split()
-    sub, cbs, pending, overlapped = {}, {}, [], set()
+    sub, cbs, pending, overlapped, late = {}, {}, [], set(), set()
     for i, t in enumerate(toks):
         if t[0] == "u":
             r, ret = t[1:].split(":")
@@ -450,6 +455,7 @@ def connect_monitor(case, out):
             if ret == 0:
                 if pending and kind == "p":
                     overlapped.update(pending)
+                    late.add(r)
                 pending.append(r)
         elif t[0] == "k":
             r, st = t[1:].split(":")
@@ -457,10 +463,10 @@ def connect_monitor(case, out):
             cbs.setdefault(r, []).append(st)
             if r in pending:
                 pending.remove(r)
-            if st == -125 and (i + 1 >= len(toks) or toks[i + 1] != "x"):
+            if st == -125 and (i + 1 >= len(toks) or not (toks[i + 1] == "x" or toks[i + 1].endswith(":-125"))):
                 return None, "request %d cancelled (UV_ECANCELED) although the handle was not being destroyed" % r
         elif t[0] == "x":
-            live = [r for r in pending if r not in overlapped]
+            live = [r for r in pending if r not in overlapped or PIPE_CONNECT_EALREADY]
             if live:
                 return None, "handle closed but connect request %d never got its callback" % live[0]
     closed = "x" in toks
@@ -471,7 +477,7 @@ def connect_monitor(case, out):
         if ret == 0 and n > 1:
             return None, "request %d completed %d times" % (r, n)
         if ret == 0 and n == 0 and closed:
-            if r in overlapped:
+            if r in overlapped and not PIPE_CONNECT_EALREADY:
                 return K_LOST, "connect request %d on a pipe was overwritten by a second uv_pipe_connect and never completes" % r
             return None, "request %d (submitted with 0) never completed" % r
     # status against what the harness arranged (no injected answers, callbacks do nothing)
@@ -491,7 +497,7 @@ def connect_monitor(case, out):
                 continue
             r, rid = rid, rid + 1
             nxt = top[j + 1] if j + 1 < len(top) else ""
-            if o in fail and nxt == "R" and sub.get(r) == 0 and r not in overlapped and cbs.get(r):
+            if o in fail and nxt == "R" and sub.get(r) == 0 and r not in overlapped and r not in late and cbs.get(r):
                 if cbs[r][0] != fail[o]:
                     return None, "uv_pipe_connect %s (request %d) completed with status %d, expected %d" \
                         % (o, r, cbs[r][0], fail[o])
